@@ -8,7 +8,7 @@
 (*   FAIL|property|predicate|kind|class|line|case                           *)
 (* Acceptance: every line consumed (POSTCONDITION).                         *)
 (***************************************************************************)
-EXTENDS CalcProps, ParsProps, IndexProps, GenProps, SampleProps, Json
+EXTENDS CalcProps, ParsProps, IndexProps, GenProps, SampleProps, StatsProps, Json
 
 CONSTANT PROPS
 
@@ -17,8 +17,9 @@ Trace == ndJsonDeserialize("trace.ndjson")
 VARIABLES l, nfail
 vars == <<l, nfail>>
 
+\* predicates of StatsProps.GrowthPreds describe behaviour outside the listed properties: reported under "GROWTH" (notes)
 Report(ev, cls, fails) ==
-  \A f \in fails : PrintT("FAIL|" \o ev.prop \o "|" \o f \o "|" \o ev.kind \o "|" \o cls \o "|" \o ToString(l) \o "|" \o ev.case)
+  \A f \in fails : PrintT("FAIL|" \o (IF f \in GrowthPreds THEN "GROWTH" ELSE ev.prop) \o "|" \o f \o "|" \o ev.kind \o "|" \o cls \o "|" \o ToString(l) \o "|" \o ev.case)
 
 \* every input tree must be a well-formed tree in the domain, else the case is a harness problem
 InputsOK(ev) == \A i \in 1..Len(ev.trees) : WellFormed(ev.trees[i])
@@ -28,7 +29,7 @@ RootedClass(Vs) == IF \E i \in 1..Len(Vs) : IsRooted(Vs[i]) THEN "rooted" ELSE "
 
 \* kinds whose call must succeed on in-domain input
 MustSucceed == {"DistMatrix", "AvgMatrix", "TipBags", "Compare", "CompareRF", "CompareWeightedCLI", "CommonEdges", "CompareWeighted", "Consensus", "FBP", "TBE",
-                "Parsimony", "ParsimonySeq", "IndexOps", "HashPairs", "Quartets", "Generator", "Topologies", "Draws", "Shuffle"}
+                "StatsSummary", "StatsEdges", "StatsSplits", "StatsNodes", "StatsTips", "Parsimony", "ParsimonySeq", "IndexOps", "HashPairs", "Quartets", "Generator", "Topologies", "Draws", "Shuffle"}
 \* kinds for which only "no crash, terminates" is claimed (degenerate sizes)
 OnlyTotal   == {"GeneratorTwoTips"}
 \* kinds whose call must be refused with an error (not a crash, not a success)
@@ -49,6 +50,11 @@ Judge(ev, Vs) ==
          IF WellFormed(ev.out)
          THEN F_Support(ev.kind, Vs[1], [i \in 1..(Len(Vs) - 1) |-> Vs[i + 1]], View(ev.out), ev.res)
          ELSE {"SupportWellFormed"}
+    [] ev.kind = "StatsSummary" -> F_StatsSummary(Vs[1], ev.args.id, ev.res)
+    [] ev.kind = "StatsEdges"   -> F_StatsEdges(Vs[1], ev.args.id, ev.res)
+    [] ev.kind = "StatsSplits"  -> F_StatsSplits(ev.trees[1], Vs[1], ev.args.id, ev.res)
+    [] ev.kind = "StatsNodes"   -> F_StatsNodes(Vs[1], ev.args.id, ev.res)
+    [] ev.kind = "StatsTips"    -> F_StatsTips(Vs[1], ev.args.id, ev.res)
     [] ev.kind = "Parsimony"    -> F_Parsimony(Vs[1], ev.args, ev.res)
     [] ev.kind = "ParsimonySeq" -> F_ParsimonySeq(Vs[1], ev.args, ev.res)
     [] ev.kind = "IndexOps"     -> F_IndexOps(ev.trees, Vs, ev.args, ev.res)
